@@ -236,7 +236,7 @@ func TestCheck(t *testing.T) {
 	rec = mon.Open("C12")
 	defer rec.Close()
 	rec.Note("rule", "a case is one topology run against the real managers in a synctest bubble: 0-4 runners drawn from {nil, error, context.Canceled, wrapped Canceled, block-until-cancel (returning nil / an error / ctx.Err), gate-released (nil / error)} finishing in a seeded order, parent context cancelled or not; for the closer manager additionally 0-4 closers of the four accepted types with seeded durations and errors, grace period unset / generous / exceeded, Close before / during / after Run (repeated, concurrent), AddCloser during the run and AddCloser parked at its decision point while Run enters the closing phase, unsupported closer types. The sequence-stamped event log is judged offline. Non-trivial = at least one runner or closer; distinct = distinct topology description.")
-	rec.Note("require", []string{"runner.first_return_cancels_others", "runner.parent_cancel", "closer.fatal_fired", "closer.fatal_not_fired", "closer.close_during_run", "closer.close_before_run", "closer.concurrent_close", "closer.addcloser_during_run", "placed.addcloser_parked", "closer.unsupported_type_rejected", "closer.all_runners_registered_with_add", "closer.finishes_in_the_last_fraction_of_the_grace_period", "shared_slice.slice_given_to_first_add", "join.errors_checked", "closer.addcloser_from_a_running_closer_refused", "closer.returns_context_canceled", "parent_end.cancel", "parent_end.deadline", "parent_end.cause", "parent_end.already-ended", "racing.addcloser_accepted", "racing.addcloser_rejected", "shared_slice.managers_start_their_own_runners"})
+	rec.Note("require", []string{"runner.first_return_cancels_others", "runner.parent_cancel", "closer.fatal_fired", "closer.fatal_not_fired", "closer.close_during_run", "closer.close_before_run", "closer.concurrent_close", "closer.addcloser_during_run", "placed.addcloser_parked", "closer.unsupported_type_rejected", "closer.all_runners_registered_with_add", "closer.grace_period_zero_or_negative", "closer.finishes_in_the_last_fraction_of_the_grace_period", "shared_slice.slice_given_to_first_add", "join.errors_checked", "closer.addcloser_from_a_running_closer_refused", "closer.returns_context_canceled", "parent_end.cancel", "parent_end.deadline", "parent_end.cause", "parent_end.already-ended", "racing.addcloser_accepted", "racing.addcloser_rejected", "shared_slice.managers_start_their_own_runners"})
 	ps := plans()
 	rec.Planned(len(ps))
 	for idx, pl := range ps {
@@ -643,7 +643,9 @@ func runCloser(t *testing.T, idx int, rng *mon.RNG, placed bool) {
 	}
 	graceMode := rng.PickStr("nil", "generous", "exceeded")
 	// the grace period is not always a whole number of seconds
-	grace := []time.Duration{10 * time.Second, 4500 * time.Millisecond, 900 * time.Millisecond, 1500 * time.Millisecond, 2750 * time.Millisecond, 10 * time.Second}[idx%6]
+	// ... and a grace period of zero, or a negative one, is a grace period too (no time at all), not "none"
+	configured := []time.Duration{10 * time.Second, 4500 * time.Millisecond, 900 * time.Millisecond, 1500 * time.Millisecond, 2750 * time.Millisecond, 10 * time.Second, 0, -time.Second}[idx%8]
+	grace := max(configured, 0) // what the closers effectively get
 	cs := make([]cspec, nc)
 	csents := make([]error, nc+2)
 	var cd []string
@@ -655,7 +657,7 @@ func runCloser(t *testing.T, idx int, rng *mon.RNG, placed bool) {
 		if graceMode == "exceeded" && j == 0 {
 			cs[j].Dur = grace + time.Duration(1+rng.Intn(5))*time.Second
 		}
-		if graceMode == "generous" && (cs[j].Dur >= grace || (j == 0 && idx%2 == 0)) {
+		if graceMode == "generous" && grace > 0 && (cs[j].Dur >= grace || (j == 0 && idx%2 == 0)) {
 			// finishes inside the grace period, in its last 100 ms (after the last whole second of it)
 			cs[j].Dur = grace - 100*time.Millisecond
 			rec.Count("closer.finishes_in_the_last_fraction_of_the_grace_period", 1)
@@ -697,7 +699,7 @@ func runCloser(t *testing.T, idx int, rng *mon.RNG, placed bool) {
 	if placed {
 		mode = "addcloser-placed"
 	}
-	w := &world{idx: idx, mode: mode, desc: fmt.Sprintf("runners=%v closers=%v grace=%s close=%s parentCancel=%v(%s) lateCloser=%v order=%d ctorRunners=%d gracePeriod=%v", ds, cd, graceMode, closeWhen, parentCancel, parentKind, lateCloser, order, ctorRunners, grace)}
+	w := &world{idx: idx, mode: mode, desc: fmt.Sprintf("runners=%v closers=%v grace=%s close=%s parentCancel=%v(%s) lateCloser=%v order=%d ctorRunners=%d gracePeriod=%v", ds, cd, graceMode, closeWhen, parentCancel, parentKind, lateCloser, order, ctorRunners, configured)}
 	rec.Begin(idx, w.mode+" "+w.desc)
 	res := mon.Bubble(t, func() {
 		var runners []concurrency.Runner
@@ -706,7 +708,10 @@ func runCloser(t *testing.T, idx int, rng *mon.RNG, placed bool) {
 		}
 		var gp *time.Duration
 		if graceMode != "nil" {
-			gp = &grace
+			gp = &configured
+			if configured <= 0 {
+				rec.Count("closer.grace_period_zero_or_negative", 1)
+			}
 		}
 		log := logger.NewLogger("c12")
 		log.SetOutputLevel(logger.FatalLevel)
